@@ -39,3 +39,7 @@ CLAIMS["C03"] = ("exploration",
     "Pagination-oriented Hypothesis generator (rows with line heights calibrated for the cell's own font/size, group runs sized relative to the page capacity, null/divider groups, unequal widths, reused long texts, 'tight' pages without slack) plus an exhaustive header x footnote x source x strategy x nrow sweep; validity predicate per parsed page with an independent lower-bound line weight (PIL on the bundled fonts); an excess is attributed to named contributions and only the part not explained by listed known findings is a violation. " + _EXPL,
     _READER + " Row weight = ceil(text width / cell width) at the parsed font and size (a lower bound for any RTF viewer).",
     "property-based testing: calibrated pagination generator + exhaustive sweep, per-page budget predicate with independent text metrics")
+CLAIMS["C04"] = ("exploration",
+    "Exhaustive enumeration of all height vectors in {1,2,3}^n x all group-change patterns (n<=5 quick, n<=7 thorough) over rotating reservation/strategy configurations, plus Hypothesis-generated tables (1-3 level arbitrary key sequences incl. returning keys, all reservations, nrow 2-30); oracle from page membership of coordinate-tagged rows: contiguity, justified-breaks-only (observed fill + need vs nrow - R), forced breaks / no mixed pages, and the metamorphic prefix-stability relation. " + _EXPL,
+    _READER + " Default body font with calibrated row heights so the library's estimate and the independent measurement agree by construction.",
+    "property-based testing: exhaustive small-scope enumeration + Hypothesis, reference break-justification model and metamorphic prefix relation")
